@@ -194,6 +194,9 @@ class CaseTag(Tag):
         stream.expect_tag("endcase")
         end_block_tag = stream.current()
         assert isinstance(end_block_tag, TagToken)
+        # With no `when` or `else`, no block has been parsed up to `endcase`, and
+        # the carry would still be that of the `case` tag.
+        stream.trim_carry = end_block_tag.wc[-1]
 
         return self.node_class(
             token,
